@@ -279,6 +279,13 @@ def gen_leaf(rng, name, kind=None, allow_custom=False, wire_safe=False):
     n['lo'], n['hi'] = lo, hi
     if rng.random() < 0.3:
       n['default'] = rng.choice([int(lo), int(hi), float(int(lo)), 42] + ([] if wire_safe else [True]))
+      if rng.random() < 0.25:
+        # the integer as float arithmetic delivers it: one ulp below the upper / above the lower bound
+        # (4.35 * 100 == 434.99999999999994); such a float stands for the integer and is accepted
+        import math
+        cand = [math.nextafter(float(int(hi)), -math.inf)] * (int(hi) != 0) + [math.nextafter(float(int(lo)), math.inf)] * (int(lo) != 0)
+        if cand:
+          n['default'] = rng.choice(cand)
   elif k == 'discrete':
     pool = rng.choice([INTS, FLOATS[:8], INTS + FLOATS[:8], [0, 1, 2, 3.0, 4.0], [True, 2, 3.5]])
     vals = []
